@@ -77,6 +77,13 @@ def variants(p, rng, auth, my_id, my_psk, victim_psk, victim_id, victim_auth_dat
         out.append(('psk-method-public-key-as-psk', it, idata, 2, p.auth_psk(peer_pub_pem.encode(), it, idata)))
         out.append(('psk-method-random', it, idata, 2, gen.rb(rng, 32)))
         out.append(('psk-method-with-signature', it, idata, 2, good))
+    if auth == 'psk':
+        # an AUTH value that WAS valid in an earlier session of the same two parties (other nonces, other keys)
+        import hashlib
+        old_octets = hashlib.sha256(b'earlier session').digest() * 8
+        out.append(('auth-replayed-from-an-earlier-session', it, idata, 2, ikecrypto.psk_auth(p.suite['prf'], my_psk, old_octets)))
+    else:
+        out.append(('signature-replayed-from-an-earlier-session', it, idata, 1, rsa_sign(my_priv, b'octets of an earlier session' * 9)))
     if victim_auth_data is not None:
         out.append(('reflected-auth', it, idata, 2 if auth == 'psk' else 1, victim_auth_data))
         out.append(('reflected-auth-and-id', victim_id[0], victim_id[1], 2 if auth == 'psk' else 1, victim_auth_data))
